@@ -267,19 +267,19 @@ def _size_bounds(prog):
 @st.composite
 def c11_case(draw, targets=tuple(TARGETS)):
     target = draw(st.sampled_from(list(targets)))
-    far = draw(st.integers(0, 4)) == 0
-    prog = draw(asmgen.program(target, max_objects=2, max_sections=3, max_items=10, far=far))
+    scale = draw(st.sampled_from(["small", "small", "small", "byte", "half", "kilo", "page", "far", "huge"]))
+    prog = draw(asmgen.program(target, max_objects=2, max_sections=3, max_items=draw(st.sampled_from([4, 6, 10])), pads=asmgen.PAD_SCALES[scale]))
     names = asmgen.section_names(prog)
     bounds = _size_bounds(prog)
     gl = sorted({g for od in prog["objects"] for g in od["globals"]})
-    spread = draw(st.sampled_from(["near", "near", "near", "far"]))
-    gaps = [0, 0x10, 0x100, 0x1000] if spread == "near" else [0x1000, 0x100000, 0x3F0000, 0x7F0000, 0x8000000]
+    spread = draw(st.sampled_from(["near", "near", "near", "near", "far"]))
+    gaps = [0, 0, 0x10, 0x100] if spread == "near" else [0x1000, 0x100000, 0x3F0000, 0x7F0000, 0x8000000]
     ld = draw(linkgen.simple_layout(names, entry_candidates=gl, min_size=0x400, gaps=gaps, size_hint=bounds))
     if draw(st.integers(0, 5)) == 0:
         # load-image copy of one section (startup code copies it to RAM)
         ld["memories"][0]["inputs"].append(["sectiondata", draw(st.sampled_from(names))])
         ld["memories"][0]["size"] += bounds[ld["memories"][0]["inputs"][-1][1]]
-    return {"target": target, "prog": prog, "layout": ld, "layout_form": draw(st.sampled_from(["object", "text"]))}
+    return {"target": target, "prog": prog, "layout": ld, "layout_form": draw(st.sampled_from(["object", "text"])), "scale": scale + "/" + spread}
 
 
 def _worker(arg):
@@ -294,7 +294,7 @@ def _worker(arg):
             failures = evaluate(case, hist, info)
         finally:
             stats.hist.update(hist)
-        cls = ["target_" + case["target"], "memories_%d" % len(case["layout"]["memories"])]
+        cls = ["target_" + case["target"], "memories_%d" % len(case["layout"]["memories"]), "scale_" + case.get("scale", "?")]
         if info.get("rejected"):
             cls.append("link_rejected")
         nt = bool(info.get("nontrivial"))
